@@ -78,6 +78,11 @@ fn txn_statement(rng: &mut Rng, next_id: &mut i64, ddl: bool) -> (String, &'stat
     if rng.chance(1, 12) {
         return if rng.chance(1, 2) { ("BEGIN".to_string(), "nested-begin") } else { (format!("CREATE SCHEMA sx{}", rng.below(2)), "create-schema") };
     }
+    // the table without key accepts identical rows: undoing one of them must not touch the others
+    if rng.chance(1, 6) {
+        let k = *rng.pick(&[1, 9]);
+        return (format!("INSERT INTO u VALUES ({}, {})", k, k), "insert-duplicate-row-keyless-table");
+    }
     let r = rng.below(if ddl { 16 } else { 9 });
     match r {
         0..=2 => {
@@ -171,13 +176,25 @@ pub fn run_c13(ctx: &mut Ctx) {
     }
 }
 
+/// rows of t followed by the rows of the keyless table u (tagged), as one multiset
+fn both_tables(s: &mut Session) -> Vec<CRow> {
+    let mut rows = q(s, "SELECT id, a, b, c FROM t").unwrap_or_default();
+    rows.extend(q(s, "SELECT k, v, -1, 'table-u' FROM u").unwrap_or_default());
+    rows
+}
+
 pub fn run_c14(ctx: &mut Ctx) {
-    let total = ctx.n(2500, 120_000);
+    let total = ctx.n(12_000, 120_000);
     for case in ctx.my_cases(total) {
         ctx.begin_case(case);
         let mut rng = ctx.rng(case);
         let mut s = Session::new();
         s.must("CREATE TABLE t (id INTEGER PRIMARY KEY, a INTEGER, b INTEGER, c VARCHAR(10))");
+        // a table without any key: identical rows are legal there
+        s.must("CREATE TABLE u (k INTEGER, v INTEGER)");
+        for _ in 0..rng.range(0, 3) {
+            s.must("INSERT INTO u VALUES (1, 1)");
+        }
         let mut next_id = 0i64;
         for _ in 0..rng.range(0, 4) {
             next_id += 1;
@@ -189,11 +206,16 @@ pub fn run_c14(ctx: &mut Ctx) {
         let mut stack: Vec<(String, Vec<CRow>)> = Vec::new();
         let mut dml_since: Vec<Vec<&'static str>> = Vec::new(); // parallel to stack
         let mut maybe: Vec<bool> = Vec::new(); // parallel to stack: fate unspecified after a RELEASE below it
+        // what RELEASE does to the savepoints established after the released one is left open by
+        // the statement (standard SQL destroys them, this engine keeps them); the first decision
+        // the engine makes on such a savepoint fixes the reading for the rest of the case, and it
+        // must then be followed consistently: Some(true) = later savepoints survive a RELEASE
+        let mut keeps_later: Option<bool> = None;
         let mut ok = true;
         let steps = rng.range(3, if ctx.quick() { 16 } else { 30 });
         for _ in 0..steps {
             let r = rng.below(12);
-            let name = rng.pick(&["sa", "sb", "sc"]).to_string();
+            let name = rng.pick(&["sa", "sb", "sc", "sd"]).to_string();
             ctx.eval();
             match r {
                 0..=4 => {
@@ -202,7 +224,7 @@ pub fn run_c14(ctx: &mut Ctx) {
                         if kind == "insert-other-table" {
                             continue;
                         }
-                        if insert_only && kind != "insert" {
+                        if insert_only && kind != "insert" && kind != "insert-duplicate-row-keyless-table" {
                             continue;
                         }
                         break (sql, kind);
@@ -224,7 +246,7 @@ pub fn run_c14(ctx: &mut Ctx) {
                     if stack.iter().any(|(n, _)| *n == name.to_uppercase()) {
                         continue;
                     }
-                    let snap = q(&mut s, "SELECT id, a, b, c FROM t").unwrap_or_default();
+                    let snap = both_tables(&mut s);
                     let o = s.exec(&format!("SAVEPOINT {}", name));
                     if !o.is_err() {
                         stack.push((name.to_uppercase(), snap));
@@ -240,14 +262,14 @@ pub fn run_c14(ctx: &mut Ctx) {
                     // RELEASE of any live savepoint (or an unknown name). Savepoints created after a released one have
                     // an unspecified fate: they are marked "maybe" and only judged if the engine still accepts them.
                     let name = if !stack.is_empty() && rng.chance(3, 4) { stack[rng.usize(stack.len())].0.to_lowercase() } else if stack.iter().any(|(n, _)| *n == name.to_uppercase()) { "szz".to_string() } else { name.clone() };
-                    let before = q(&mut s, "SELECT id, a, b, c FROM t").unwrap_or_default();
+                    let before = both_tables(&mut s);
                     let o = s.exec(&format!("RELEASE SAVEPOINT {}", name));
                     if let Outcome::Panic(p) = &o {
                         ctx.violation(case, format!("panic:release:{}", panic_class(p)), json!({"history": hist(&s)}));
                         ok = false;
                         break;
                     }
-                    let after = q(&mut s, "SELECT id, a, b, c FROM t").unwrap_or_default();
+                    let after = both_tables(&mut s);
                     if !multiset_eq(&before, &after, 0.0) {
                         ctx.violation(case, "release-changed-data", json!({"before": show_rows(&before, 20), "after": show_rows(&after, 20), "history": hist(&s)}));
                         ok = false;
@@ -256,11 +278,23 @@ pub fn run_c14(ctx: &mut Ctx) {
                     let pos = stack.iter().rposition(|(n, _)| *n == name.to_uppercase());
                     match (pos, o.is_err()) {
                         (Some(p), false) => {
+                            let was_maybe = maybe[p];
                             stack.remove(p);
                             dml_since.remove(p);
                             maybe.remove(p);
-                            for m in maybe.iter_mut().skip(p) {
-                                *m = true;
+                            if was_maybe {
+                                // accepted on a savepoint of unspecified fate: the engine keeps them
+                                keeps_later = Some(true);
+                                maybe.iter_mut().for_each(|m| *m = false);
+                            }
+                            match keeps_later {
+                                None => maybe.iter_mut().skip(p).for_each(|m| *m = true),
+                                Some(true) => {}
+                                Some(false) => {
+                                    stack.truncate(p);
+                                    dml_since.truncate(p);
+                                    maybe.truncate(p);
+                                }
                             }
                         }
                         (None, false) => {
@@ -274,9 +308,12 @@ pub fn run_c14(ctx: &mut Ctx) {
                                 ok = false;
                                 break;
                             }
-                            stack.truncate(p);
-                            dml_since.truncate(p);
-                            maybe.truncate(p);
+                            // rejected on a savepoint of unspecified fate: the engine destroys them
+                            keeps_later = Some(false);
+                            let first_maybe = maybe.iter().position(|m| *m).unwrap_or(p);
+                            stack.truncate(first_maybe);
+                            dml_since.truncate(first_maybe);
+                            maybe.truncate(first_maybe);
                         }
                         (None, true) => {}
                     }
@@ -284,17 +321,21 @@ pub fn run_c14(ctx: &mut Ctx) {
                 _ => {
                     let o = s.exec(&format!("ROLLBACK TO SAVEPOINT {}", name));
                     if let Outcome::Panic(p) = &o {
-                        let insert_hist = dml_since.iter().all(|d| d.iter().all(|k| *k == "insert"));
+                        let insert_hist = dml_since.iter().all(|d| d.iter().all(|k| k.starts_with("insert")));
                         ctx.violation(case, format!("panic:rollback-to:{}|{}", panic_class(p), if insert_hist { "insert-only" } else { "with-update-or-delete" }), json!({"history": hist(&s)}));
                         ok = false;
                         break;
                     }
                     let pos = stack.iter().rposition(|(n, _)| *n == name.to_uppercase());
-                    let after = q(&mut s, "SELECT id, a, b, c FROM t").unwrap_or_default();
+                    let after = both_tables(&mut s);
                     match (pos, o.is_err()) {
                         (Some(p), false) => {
+                            if maybe[p] {
+                                keeps_later = Some(true);
+                                maybe.iter_mut().for_each(|m| *m = false);
+                            }
                             let since: Vec<&'static str> = dml_since[p].clone();
-                            let class = if since.iter().all(|k| *k == "insert") { "insert-only" } else { "with-update-or-delete" };
+                            let class = if since.iter().all(|k| k.starts_with("insert")) { "insert-only" } else { "with-update-or-delete" };
                             if !multiset_eq(&stack[p].1, &after, 0.0) {
                                 ctx.violation(case, format!("rollback-to-savepoint:table-differs-from-savepoint-state|{}", class), json!({"savepoint": name, "expected": show_rows(&stack[p].1, 20), "got": show_rows(&after, 20), "dml_since_savepoint": since, "history": hist(&s)}));
                                 ok = false;
@@ -307,14 +348,17 @@ pub fn run_c14(ctx: &mut Ctx) {
                             dml_since[p].clear();
                             ctx.nontrivial(format!("rollback-to|depth{}|{}|since={}", p, class, since.len().min(3)));
                         }
-                        (Some(p), true) if maybe[p] => {
-                            // destroyed by an earlier RELEASE under the stricter reading: accept
-                            stack.truncate(p);
-                            dml_since.truncate(p);
-                            maybe.truncate(p);
+                        (Some(p), true) if maybe[p] && o.brief().contains("not found") && o.brief().to_lowercase().contains("savepoint") => {
+                            // destroyed by an earlier RELEASE under the stricter reading: accept, and
+                            // hold the engine to that reading from now on
+                            keeps_later = Some(false);
+                            let first_maybe = maybe.iter().position(|m| *m).unwrap_or(p);
+                            stack.truncate(first_maybe);
+                            dml_since.truncate(first_maybe);
+                            maybe.truncate(first_maybe);
                         }
                         (Some(p), true) => {
-                            let class = if dml_since[p].iter().all(|k| *k == "insert") { "insert-only" } else { "with-update-or-delete" };
+                            let class = if dml_since[p].iter().all(|k| k.starts_with("insert")) { "insert-only" } else { "with-update-or-delete" };
                             ctx.violation(case, format!("rollback-to-live-savepoint-rejected|{}", class), json!({"name": name, "error": o.brief(), "stack": stack.iter().map(|x| x.0.clone()).collect::<Vec<_>>(), "history": hist(&s)}));
                             ok = false;
                             break;
